@@ -242,6 +242,24 @@ class Gen:
         return m.SpecificAssetId(f"{self.string(1, 50)}#{self.counter}", self.string(1, 100), self.opt(self.external_reference, 0.4),
                                  **self.has_semantics_kwargs())
 
+    def specific_asset_ids(self, lo: int, hi: int = 2):
+        """a collection of distinct specific asset ids; now and then two members agree in name, value and subject and differ
+        only in their semantic id (or supplemental semantic ids) — still two different elements of the collection"""
+        m = self.m
+        out = [self.specific_asset_id() for _ in range(self.rng.randint(lo, hi))]
+        if out and self.rng.random() < 0.35:
+            a = out[0]
+            self.counter += 1
+            sem = m.ExternalReference((m.Key(m.KeyTypes.GLOBAL_REFERENCE, f"urn:twin:{self.counter}"),))
+            if self.rng.random() < 0.5 or a.semantic_id is None:
+                twin = m.SpecificAssetId(a.name, a.value, a.external_subject_id, semantic_id=sem,
+                                         supplemental_semantic_id=list(a.supplemental_semantic_id))
+            else:
+                twin = m.SpecificAssetId(a.name, a.value, a.external_subject_id, semantic_id=a.semantic_id,
+                                         supplemental_semantic_id=list(a.supplemental_semantic_id) + [sem])
+            out.append(twin)
+        return out
+
     def administration(self):
         m = self.m
         version = self.opt(lambda: self.rng.choice(["0", "1", "12", "9999"]))
@@ -345,7 +363,7 @@ class Gen:
         if cls_name == "Entity":
             self_managed = self.chance()
             gid = self.uid("urn:asset:") if self_managed and self.chance(0.7) else None
-            sids = [self.specific_asset_id() for _ in range(self.rng.randint(0 if gid else 1, 2))] if self_managed else []
+            sids = self.specific_asset_ids(0 if gid else 1) if self_managed else []
             return m.Entity(ids, m.EntityType.SELF_MANAGED_ENTITY if self_managed else m.EntityType.CO_MANAGED_ENTITY,
                             [self.element(d) for _ in range(self.rng.randint(0, 2))], gid, sids, **kw)
         if cls_name == "BasicEventElement":
@@ -372,7 +390,7 @@ class Gen:
     def asset_information(self):
         m = self.m
         gid = self.opt(lambda: self.uid("urn:asset:"), 0.6)
-        sids = [self.specific_asset_id() for _ in range(self.rng.randint(0 if gid else 1, 2))]
+        sids = self.specific_asset_ids(0 if gid else 1)
         return m.AssetInformation(self.rng.choice(list(m.AssetKind)), gid, sids, self.opt(lambda: self.uid("urn:type:"), 0.3),
                                   self.opt(lambda: m.Resource(self.rng.choice(self.paths()), self.opt(lambda: self.rng.choice(CONTENT_TYPES))), 0.3))
 
